@@ -15,7 +15,7 @@ static const char *const SKN[SK__COUNT] = {"printf(FILE*)", "writef<char>", "wri
     "u16ostream<<", "u32ostream<<", "istream>>", "wistream>>", "format_latin_1", "printf(stdout)"};
 const char *sink_name(int k) { return (k >= 0 && k < SK__COUNT) ? SKN[k] : "?"; }
 static const char *const PCN[PC__COUNT] = {"overflow_inside_padding_run", "overflow_between_surrogate_units", "eof_exactly_at_token_end", "refill_boundary_inside_multibyte_char",
-    "flush_or_overflow_inside_call", "chunk_not_self_contained_generated", "invalid_token_rejected", "skipped_char16_sink_output_contains_U+FFFF"};
+    "flush_or_overflow_inside_call", "chunk_not_self_contained_generated", "invalid_token_rejected", "skipped_char16_sink_output_contains_U+FFFF", "extraction_with_field_width"};
 const char *probe_name(int i) { return (i >= 0 && i < PC__COUNT) ? PCN[i] : "?"; }
 
 // ------------------------------------------------------------------ plan text
@@ -493,9 +493,13 @@ RunResult run_plan(const Plan &p, Stats *st, std::vector<uint64_t> *nt_pairs) {
                 SrcBuf<Ch> a(src, chunk), b(src, chunk); a.fail_at = b.fail_at = k.fault;
                 std::basic_istream<Ch> ia(&a), ib(&b);
                 if (exc) { ia.exceptions(std::ios_base::badbit); ib.exceptions(std::ios_base::badbit); }
+                // the same formatting state on both streams: a field width (limits the token, reset by the extraction) and skipws off
+                const unsigned wsel = (k.b >> 13) & 7; const std::streamsize fw = wsel < 5 ? 0 : wsel == 5 ? 1 : wsel == 6 ? 3 : 1 + (std::streamsize)(k.a % 12);
+                if (((k.b >> 16) & 7) == 7) { ia.unsetf(std::ios_base::skipws); ib.unsetf(std::ios_base::skipws); }
                 ST::string target; { simrt::SutScope sc; target = ST::string::from_validated("previous", 8); }
                 for (unsigned round = 0; round < rounds && !V.set; round++) {
                     std::basic_string<Ch> tok; Ex exa = X_NONE;
+                    if (fw) { ia.width(fw); ib.width(fw); if (st) st->probe[PC_EXTRACT_WITH_WIDTH]++; }
                     try { ia >> tok; } catch (const SimReadFailure &) { exa = X_SIMREAD; } catch (const std::ios_base::failure &) { exa = X_IOSFAIL; }
                     if (round) { simrt::SutScope sc; target = ST::string::from_validated("previous value, second round", 28); }    // a stale token cannot pass for "untouched"
                     std::string before(target.c_str(), target.size());
@@ -520,6 +524,7 @@ RunResult run_plan(const Plan &p, Stats *st, std::vector<uint64_t> *nt_pairs) {
                     }
                     if (ia.rdstate() != ib.rdstate()) { set_viol(V, "extraction_differs", site, "stream state bits differ from those after a std::basic_string extraction"); break; }
                     if (a.consumed() != b.consumed()) { set_viol(V, "extraction_differs", site, "units left unread differ from a std::basic_string extraction"); break; }
+                    if (ia.width() != ib.width()) { set_viol(V, "extraction_differs", site, "the stream's field width after the extraction differs from that after a std::basic_string extraction"); break; }
                     if (exb != X_NONE) break;
                 }
                 { simrt::SutScope sc; target = ST::string(); }
@@ -602,7 +607,7 @@ Plan gen_plan(uint64_t runseed) {
         SinkCfg k; k.kind = (uint8_t)r.below(SK__COUNT);
         switch (k.kind) {
         case SK_COOKIE: case SK_STDOUT: k.a = r.below(3); k.b = r.below(4) ? BUFS[r.below(10)] : 1 + r.below(4096); break;
-        case SK_EXT8: case SK_EXTW: k.a = r.below(16); k.b = r.below(1 << 13); if (!faults) k.b &= ~2u; break;
+        case SK_EXT8: case SK_EXTW: k.a = r.below(16); k.b = r.below(1 << 19); if (!faults) k.b &= ~2u; break;
         default: k.a = r.below(4) ? r.below(9) : r.below(65); k.b = r.below(2); break;
         }
         if (faults && r.below(2)) k.fault = 1 + r.below(r.below(3) ? 4 : 40);
